@@ -651,7 +651,70 @@ def _work_reload(case):
 # ---------------------------------------------------------------------------
 
 
+def run_two_threads(kind):
+    """One reusable optimizer shared by two threads with the completion order pinned: thread A has finished its
+    search and is about to store the result when thread B runs its whole query.  Each must get a tree of ITS contraction."""
+    import threading
+    import cotengra as ctg
+
+    cls = ctg.ReusableRandomGreedyOptimizer if kind == "rgreedy" else ctg.ReusableHyperOptimizer
+    kw = {"max_repeats": 2} if kind == "rgreedy" else {"max_repeats": 2, "optlib": "random", "methods": ["greedy"], "progbar": False}
+    opt = cls(directory=None, **kw)
+    nets = {}
+    for name, (n, sd) in {"A": (6, 1), "B": (9, 2)}.items():
+        ins, out, _sh, size_dict = ctg.utils.rand_equation(n, 3, n_out=1, seed=sd)
+        nets[name] = (ins, out, size_dict)
+    at_store, b_done = threading.Event(), threading.Event()
+    inner = opt._cache
+
+    class Gate:
+        def __getattr__(self, k):
+            return getattr(inner, k)
+
+        def __contains__(self, k):
+            return k in inner
+
+        def __getitem__(self, k):
+            return inner[k]
+
+        def __setitem__(self, k, v):
+            if threading.current_thread().name == "verif-A":
+                at_store.set()
+                b_done.wait(20)
+            inner[k] = v
+
+    opt._cache = Gate()
+    res = {}
+
+    def run(name):
+        try:
+            res[name] = opt.search(*nets[name])
+        except Exception as e:  # noqa: BLE001
+            res[name] = e
+
+    ta = threading.Thread(target=run, args=("A",), name="verif-A")
+    tb = threading.Thread(target=run, args=("B",), name="verif-B")
+    ta.start()
+    at_store.wait(20)
+    tb.start()
+    tb.join(60)
+    b_done.set()
+    ta.join(60)
+    problems = []
+    for name in ("A", "B"):
+        t = res.get(name)
+        ins, out, size_dict = nets[name]
+        if isinstance(t, Exception) or t is None:
+            problems.append((f"query {name} raised / did not finish", repr(t)[:120]))
+        elif [tuple(x) for x in t.inputs] != [tuple(x) for x in ins] or tuple(t.output) != tuple(out) or not t.is_complete():
+            problems.append((f"two threads, one optimizer: query {name} ({len(ins)} tensors) was answered with a tree over {t.N} tensors (the other thread's contraction)", kind))
+    return problems
+
+
 def replay(case):
+    if "two_threads" in case:
+        p = run_two_threads(case["two_threads"])
+        return (not p), ("; ".join(f"{c} [{d}]" for c, d in p) or "each thread got a tree of its own contraction")
     if "net" in case:
         return _replay_fingerprint(case)
     if "diskdict" in case:
@@ -827,6 +890,19 @@ def _run_bounded(rep: Report, tier: str) -> None:
                 add(sig, case, detail)
     rep.scope("fresh interpreter pointed at a written cache directory (same split / 'auto'; search and __call__)", done, False,
               f"{done} directories x 2 child layouts x 2 modes, 5 queries each; spy on _run_optimizer in the child")
+
+    # one optimizer shared by two threads, completion order pinned (the per-thread 'last run' slot)
+    done = 0
+    for kind in ("rgreedy", "hyper"):
+        probs = run_two_threads(kind)
+        done += 1
+        rep.count(1)
+        rep.nontrivial_case(f"two-threads:{kind}")
+        rep.fired("two threads sharing one optimizer each get a tree of their own query", 1)
+        for c, d in probs:
+            add(f"C14 {c}", {"two_threads": kind}, d)
+    rep.scope("one reusable optimizer shared by two threads, thread A held at its cache write while thread B runs its whole query", done, False,
+              "2 optimizer kinds x 1 pinned completion order (the full schedule exploration is C16's)")
 
     rep.explanation += (
         "C14 bounded: pool of near-identical contractions (indices permuted in a tensor / in the output, one size changed, inputs "
